@@ -36,6 +36,7 @@ type childSpec struct {
 	Writes  []map[string]string `json:"writes"`   // consecutive Writes of ONE Dir instance
 	CrashAt int                 `json:"crash_at"` // hook invocation of the LAST Write at which the process kills itself (-1: never)
 	Trace   string              `json:"trace"`
+	Alias   string              `json:"alias,omitempty"` // how the caller builds the arguments (alias.go)
 }
 
 // childMain is the whole child process.
@@ -65,6 +66,7 @@ func childMain(specPath string) {
 	log.SetOutput(io.Discard)
 	log.SetOutputLevel(logger.FatalLevel)
 	d := dir.New(dir.Options{Log: log, Target: sp.Target})
+	cl := newCaller(sp.Alias)
 	for i, fs := range sp.Writes {
 		last := i == len(sp.Writes)-1
 		inv := 0
@@ -88,7 +90,18 @@ func childMain(specPath string) {
 			inv++
 		})
 		line("B %d", i)
-		err := d.Write(decodeFiles(fs))
+		arg := decodeFiles(fs)
+		if cl != nil {
+			arg = cl.arg(arg)
+		}
+		err := d.Write(arg)
+		if cl != nil {
+			if !last {
+				cl.after(decodeFiles(sp.Writes[i+1]), true)
+			} else {
+				cl.after(nil, false)
+			}
+		}
 		txt := ""
 		if err != nil {
 			txt = err.Error()
@@ -120,7 +133,7 @@ func killSegment(evs []Ev, i int) int {
 // childSegment runs events i..j (Writes, then the killed Write) of one fresh Dir in a child.
 func (w *world) childSegment(drv *lib.Drv, i, j int, nontrivial *bool) bool {
 	c, res := w.c, w.res
-	sp := childSpec{Target: w.target, CrashAt: c.Events[j].CrashAt,
+	sp := childSpec{Target: w.target, CrashAt: c.Events[j].CrashAt, Alias: c.Alias,
 		Trace: filepath.Join(filepath.Dir(w.root), fmt.Sprintf("%s.trace.%d", filepath.Base(w.root), i))}
 	if c.RelTgt {
 		sp.Target = filepath.Join(append(append([]string{}, w.baseRel...), c.TName)...)
